@@ -1,6 +1,6 @@
 """C07 - a GN/LM step is the documented linear solve: provenance / parity / ordering clauses of step()."""
 import ast, copy
-from ..core import RuleResult, Finding, AnalysisError, dotted, src, norm_construct, ClassInfo
+from ..core import RuleResult, Finding, AnalysisError, dotted, src, norm_construct, ClassInfo, guarded, guarded_list
 from ..expr import Inliner, dump, parities, contains, subst, inline_straight, returns_of, rv
 from .. import paths
 
@@ -73,6 +73,7 @@ def _solver_args(f, ev):
     return None
 
 
+@guarded
 def rule_sys(repo, tier):
     res = RuleResult('C07.SYS', 'provenance and sign parity at the solver call: GN solves (W)J delta = -(W)R, LM solves (J^T W J) delta = '
                      '-(J^T W) R, with R, J the outputs of normalize_RWJ; R enters b with odd parity, never A; J never enters b except '
@@ -156,6 +157,7 @@ def _corrector_loop(f):
     return best
 
 
+@guarded
 def rule_corr(repo, tier):
     res = RuleResult('C07.CORR', 'R and J handed to normalize_RWJ have passed through the configured corrector (corrector[0] if there is '
                      'one, else corrector[i]) on every dense path; GN and LM select and construct correctors/kernels identically', floor=4)
@@ -249,6 +251,7 @@ def _is_diag_view(e, aname, views):
         and not e.args and not e.keywords
 
 
+@guarded
 def rule_damp(repo, tier):
     res = RuleResult('C07.DAMP', 'LM (dense): the diagonal clamp with pg[min], pg[max] is an in-place write through A.diagonal() that '
                      'precedes the trial loop; on every trial the damping is an in-place A.diagonal().add_(<live diagonal> * pg[damping]) '
@@ -334,6 +337,7 @@ def rule_damp(repo, tier):
     return res
 
 
+@guarded
 def rule_upd(repo, tier):
     res = RuleResult('C07.UPD', 'update_parameter splits the step by the sizes of the trainable parameters and applies +step through add_ '
                      'with the same requires_grad filter on both sides; Parameter resolves add_ to LieTensor.add_ (retraction via '
@@ -404,6 +408,7 @@ def _filter_norm(test, target):
     return dump(R().visit(copy.deepcopy(test)))
 
 
+@guarded
 def rule_keys(repo, tier):
     res = RuleResult('C07.KEYS', 'the hyper-parameter keys a strategy contributes to the parameter group do not collide with the keys the optimiser '
                      'owns (min, max: the clamp of the Hessian diagonal): LevenbergMarquardt merges the strategy defaults over its own', floor=3)
